@@ -23,7 +23,7 @@ MODEL = xmlgen.simple_model(
            ("id1", "id0", [("synchronisation", "go!")]), ("id1", "id2", [("guard", "i > 3")])],
     system="P1 = P();\nP2 = P();\nsystem P1, P2;")
 
-PRED = ["P1.A", "P1.B and i > 2", "x < 5", "i == 3 || b", "not P2.B", "P1.A imply x <= 3", "deadlock", "not deadlock",
+PRED = ["P1.A", "P1.B and i > 2", "x < 5", "i == 3 || b", "not P2.B", "P1.A imply x <= 3",
         "forall (q : int[0,2]) a[q] >= 0", "exists (q : int[0,2]) a[q] == i", "P1.lx > 2 && P2.li == 0", "b", "true",
         "i + j * 2 < bi", "(P1.A or P1.B) and not P1.C", "f1(i) > 2", "s.f == 1", "a[1] > a[0]", "P1.C",
         "i <? j > 0", "(i > 0 ? j : bi) == 1", "x - y < 3", "d > 0.5", "P1.A && P2.A"]
@@ -42,12 +42,13 @@ def catalogue(rng, n):
     forms = {
         "AG": lambda: "A[] " + p(),
         "EF": lambda: "E<> " + p(),
+        "AG-deadlock": lambda: "A[] not deadlock",
+        "EF-deadlock": lambda: "E<> deadlock and " + p(),
         "EG": lambda: "E[] " + p(),
         "AF": lambda: "A<> " + p(),
         "leadsto": lambda: p() + " --> " + p(),
-        "AU": lambda: "A[ %s U %s ]" % (p(), p()),
-        "AW": lambda: "A[ %s W %s ]" % (p(), p()),
-        "buchi": lambda: "A[] (%s and A<> %s)" % (p(), p()),
+        "buchi": lambda: "control: A[] (%s and A<> %s)" % (p(), p()),
+        "control-AGAF": lambda: "control: A[] A<> %s" % p(),
         "sup": lambda: "sup: " + ", ".join(e() for _ in range(rng.randint(1, 3))),
         "sup-pred": lambda: "sup{%s}: %s" % (p(), ", ".join(e() for _ in range(rng.randint(1, 2)))),
         "inf": lambda: "inf: " + e(),
@@ -57,9 +58,9 @@ def catalogue(rng, n):
         "pr-diamond": lambda: "Pr[%s%s](<> %s)" % (bd(), rn(), p()),
         "pr-box": lambda: "Pr[%s%s]([] %s)" % (bd(), rn(), p()),
         "pr-until": lambda: "Pr[%s%s](%s U %s)" % (bd(), rn(), p(), p()),
-        "pr-ge": lambda: "Pr[%s%s](%s %s) >= %s" % (bd(), rn(), rng.choice(["<>", "[]"]), p(), rng.choice(PROB)),
-        "pr-le": lambda: "Pr[%s%s](%s %s) <= %s" % (bd(), rn(), rng.choice(["<>", "[]"]), p(), rng.choice(PROB)),
-        "pr-cmp": lambda: "Pr[%s%s](%s %s) >= Pr[%s%s](%s %s)" % (bd(), rn(), rng.choice(["<>", "[]"]), p(), bd(), rn(),
+        "pr-ge": lambda: "Pr[%s%s](%s %s) >= %s" % (bd(), "", rng.choice(["<>", "[]"]), p(), rng.choice(PROB)),
+        "pr-le": lambda: "Pr[%s%s](%s %s) <= %s" % (bd(), "", rng.choice(["<>", "[]"]), p(), rng.choice(PROB)),
+        "pr-cmp": lambda: "Pr[%s%s](%s %s) >= Pr[%s%s](%s %s)" % (bd(), "", rng.choice(["<>", "[]"]), p(), bd(), "",
                                                                 rng.choice(["<>", "[]"]), p()),
         "E-max": lambda: "E[%s%s](max: %s)" % (bd(), rn(), e()),
         "E-min": lambda: "E[%s%s](min: %s)" % (bd(), rn(), e()),
@@ -78,7 +79,7 @@ def catalogue(rng, n):
         "minE": lambda: "minE(%s)[%s] : <> %s" % (e(), bd(), p()),
         "maxE": lambda: "maxE(%s)[%s] : <> %s" % (e(), bd(), p()),
         "minE-features": lambda: "minE(%s)[%s] {%s} -> {%s} : <> %s" % (e(), bd(), "i, P1.li", "x, P1.lx", p()),
-        "maxE-features": lambda: "maxE(%s)[%s] {%s} -> {%s} : [] %s" % (e(), bd(), "i", "x", p()),
+        "maxE-features": lambda: "maxE(%s)[%s] {%s} -> {%s} : <> %s" % (e(), bd(), "i", "x", p()),
         "minPr": lambda: "minPr[%s] : <> %s" % (bd(), p()),
         "maxPr": lambda: "maxPr[%s] : <> %s" % (bd(), p()),
         "loadStrategy": lambda: 'loadStrategy {i, P1.li} -> {x} ("strategy.json")',
